@@ -44,6 +44,7 @@ def run(chk: Check, proj: Project) -> None:
     s10_same_as_django(chk, proj, m, f)
     s11_string_body_language(chk, proj)
     s13_repaired_token_keeps_its_line(chk, proj)
+    s15_source_not_rebound(chk, proj, m, f)
     from . import C12
     from . import C07 as _C07
     from .common import world as _world
@@ -244,6 +245,25 @@ def s10_same_as_django(chk: Check, proj: Project, m, f) -> None:
         chk.ob("S10", "util.template_parser:parse_template:verbatim-start-as-in-django", m.loc(ours[0]), ok,
                f"the verbatim-start test is Django's own: `{want}`" if ok else
                f"the carried-over verbatim state is set on `{got[0]}`, Django's lexer decides on `{want}`: the two disagree for a tag name followed by a tab / newline (`{{% verbatim\\n \"x\" %}}`), after which every tag is emitted as TEXT and the template ends with 'Unclosed tag verbatim'")
+    # Django: `self.verbatim = "end%s" % content` - the end marker is "end" + the WHOLE contents of the start tag
+    dj_set = [a for a in ast.walk(dj) if isinstance(a, ast.Assign) and norm(a.targets[0]).endswith(".verbatim") and not isinstance(a.value, ast.Constant)]
+    if not dj_set or not any(isinstance(x, ast.Constant) and isinstance(x.value, str) and x.value.startswith("end") for x in ast.walk(dj_set[0].value)) or not any(isinstance(x, ast.Name) for x in ast.walk(dj_set[0].value)):
+        raise AnalysisError("`self.verbatim = 'end%s' % content` not found in django's Lexer.create_token")
+    vname = None
+    for c in calls(f):
+        if last_attr(c.func) in ("DebugLexer", "Lexer"):
+            continue
+    # our carried-over state: the local whose value is handed to the restarted lexer's `.verbatim`
+    carried = [s2 for s2 in stmts(f) if isinstance(s2, ast.Assign) and len(s2.targets) == 1 and isinstance(s2.targets[0], ast.Name) and any(isinstance(x, ast.Constant) and isinstance(x.value, str) and x.value.startswith("end") for x in ast.walk(s2.value))]
+    if not carried:
+        chk.undecided("S10", "util.template_parser:parse_template:verbatim-end-marker-as-in-django", m.loc(f), "no assignment builds an 'end...' marker in parse_template")
+    else:
+        v_ = carried[0].value
+        arms = [v_.body] if isinstance(v_, ast.IfExp) else [v_]
+        uses_contents = any(isinstance(x, ast.Attribute) and x.attr == "contents" for a_ in arms for x in ast.walk(a_))
+        chk.ob("S10", "util.template_parser:parse_template:verbatim-end-marker-as-in-django", m.loc(carried[0]), uses_contents,
+               "the end marker handed to the restarted lexer is 'end' + the start tag's contents, as in Django" if uses_contents else
+               f"`{short(carried[0])}`: Django ends a verbatim block at the tag whose contents are 'end' + the WHOLE contents of the start tag (`{short(dj_set[0])}`), here the marker is a fixed text: `{{% verbatim \"x\" %}}..{{% endverbatim \"x\" %}}` (a named block, the reason the quote-aware path runs at all) is closed at an inner plain {{% endverbatim %}} or never ('Unclosed tag verbatim'), where stock Django renders it")
     # Django: `token_string[2:-2].strip()` - the no-argument strip (all Unicode whitespace)
     dj_strip = [c for c in ast.walk(dj) if isinstance(c, ast.Call) and isinstance(c.func, ast.Attribute) and c.func.attr == "strip"]
     dm, df = proj.func("util.template_parser", "_detailed_tag_parser")
@@ -262,6 +282,19 @@ def s10_same_as_django(chk: Check, proj: Project, m, f) -> None:
     chk.ob("S10", "util.template_parser:_detailed_tag_parser:contents-stripped-as-in-django", dm.loc(strips[0]) if strips else dm.loc(tok[0]), ok,
            "the contents are stripped with the no-argument str.strip(), as Django's Lexer.create_token does" if ok else
            f"the contents are stripped with `{short(strips[0]) if strips else 'nothing'}`, Django strips with `.strip()` (all Unicode whitespace): a quoted tag with a non-breaking space / U+3000 next to a delimiter keeps it in its contents, which then differ from the span without delimiters and from stock Django's token")
+
+
+def s15_source_not_rebound(chk: Check, proj: Project, m, f) -> None:
+    chk.rule("S15", "the tokens partition the CALLER's source: the text that is lexed, sliced and measured is the parameter itself - it is never rebound to an edited copy (stripped BOM, normalised line ends ...), because every position and line number reported afterwards is read by the caller as an offset into the string it passed in")
+    from ..astq import params as _params
+
+    for fn in (f, proj.func("util.template_parser", "_detailed_tag_parser")[1]):
+        src = _params(fn)[0]
+        reb = [st for st in ast.walk(fn) if isinstance(st, (ast.Assign, ast.AugAssign, ast.AnnAssign)) and any(isinstance(t, ast.Name) and t.id == src for t in (st.targets if isinstance(st, ast.Assign) else [st.target]))]
+        reb = [st for st in reb if not (isinstance(st, ast.Assign) and norm(st.value) == src)]
+        chk.ob("S15", f"util.template_parser:{fn.name}:source-parameter-not-rebound", m.loc(reb[0]) if reb else m.loc(fn), not reb,
+               f"`{src}` is only read" if not reb else
+               f"`{short(reb[0])}` replaces the source by an edited copy before it is lexed: the tokens no longer cover the caller's string (the removed characters belong to no token), every position is shifted by the removed length and the last token ends before the end of the source - also for templates without any quoted tag, so the stream differs from stock Django's lexer")
 
 
 def s8_patch_installed(chk: Check, proj: Project) -> None:
